@@ -392,6 +392,8 @@ func (e *c18Env) observe(tx *bbolt.Tx, q string) string {
 		return query(fmt.Sprintf(`ext = "x%d"`, arg))
 	case "U":
 		return query(c18FreshSpelling(arg))
+	case "O":
+		return e.c18SortFieldsTwice(arg)
 	case "FA", "FO", "JA", "JO":
 		// a read-only set-index lookup with a values slice other read transactions are using too; the first number of the
 		// answer says whether the caller's slice still holds what it held (post-condition of a read API)
@@ -526,7 +528,7 @@ func (e *c18Env) observe(tx *bbolt.Tx, q string) string {
 	return "bad-q"
 }
 
-var c18QKinds = []string{"U", "U", "FA", "FO", "JA", "JO", "N", "K", "R", "G", "H", "T", "iN", "iR", "lG", "lM", "E", "A", "P", "Q", "X", "Z", "Y", "V", "W", "M", "M", "I"}
+var c18QKinds = []string{"O", "U", "U", "FA", "FO", "JA", "JO", "N", "K", "R", "G", "H", "T", "iN", "iR", "lG", "lM", "E", "A", "P", "Q", "X", "Z", "Y", "V", "W", "M", "M", "I"}
 
 var c18MvIds = []int{0, 1, 2, 3, 4, 5}
 
@@ -580,6 +582,8 @@ func c18Args(kind string, ids []int) []int {
 		}
 	case "U":
 		return c18Range(0, len(c18SpellTemplates)-1)
+	case "O":
+		return c18Range(1, 8)
 	case "FA", "FO", "JA", "JO":
 		return c18Range(0, len(c18SharedVals)-1)
 	case "M":
@@ -1202,7 +1206,7 @@ func c18GenTx(r *rng, gen []int) string {
 
 // the query kinds the readers of one cr case concentrate on (collisions need the same symbol / object at the same moment)
 var c18Focus = [][]string{
-	{"U"}, {"U", "K", "N"}, {"JA", "FA"}, {"JA", "JO", "FA", "FO", "iR"}, {"M"}, {"M", "I", "K"}, {"X", "Z"}, {"X", "Y", "V"}, {"A", "P"}, {"A", "P", "Q", "K"}, {"Y", "W", "Z"}, {"R", "H", "G"}, {"T", "K", "Q"}, {"N", "iN", "E", "lG", "lM", "iR"},
+	{"O", "T", "K"}, {"U"}, {"U", "K", "N"}, {"JA", "FA"}, {"JA", "JO", "FA", "FO", "iR"}, {"M"}, {"M", "I", "K"}, {"X", "Z"}, {"X", "Y", "V"}, {"A", "P"}, {"A", "P", "Q", "K"}, {"Y", "W", "Z"}, {"R", "H", "G"}, {"T", "K", "Q"}, {"N", "iN", "E", "lG", "lM", "iR"},
 }
 
 func c18GenCr(r *rng, focus []string, iters int) string {
